@@ -58,6 +58,11 @@ func cmdC06Dialect(o opts) {
 				em.put(em.group(), cat(firstCanon, v.Bytes, firstCanon), -1, "eof", []int{5}, false, cfg, false, "kd_"+v.Kind+"_between")
 			}
 		}
+		if o.aux == "c05" {
+			// C05: the valid vectors only (every one, one after the other in one stream, must come out)
+			rec.Close()
+			return
+		}
 		// no message id is exempt: an unsigned v2 frame and a v1 frame of EVERY message of the dialect (valid checksum, made
 		// by the library's own unkeyed writer) through the keyed reader with and without the dialect: none may be delivered
 		em.incomplete = true
